@@ -1,5 +1,6 @@
 """C03 hooks: obligations + correspondence on hook configurations + a trace
 oracle written from the property text."""
+import functools
 import itertools
 
 import implrun  # noqa: F401
@@ -172,6 +173,51 @@ def run(ctx):
                     "before_hooks": nb, "after_hooks": na,
                     "first_request": first, "trace": trace,
                     "status": ans.status})
+    # a hook may change what the chosen endpoint needs (house keeping that
+    # removes the file about to be served, a route table edited in flight):
+    # whatever the endpoint then does, no hook runs a second time
+    import os
+    import shutil
+    import tempfile
+    root = tempfile.mkdtemp(prefix="c03root", dir="/root/scratch")
+    try:
+        for nb, with_default, meth in itertools.product(
+                (1, 2, 3), (False, True), ("GET", "HEAD")):
+            fname = os.path.join(root, "f.txt")
+            with open(fname, "w") as fil:
+                fil.write("content")
+            trace = []
+            app = new_app(document_root=root)
+
+            def before(req, i=0):
+                trace.append(("B", i))
+                if i == 0 and os.path.exists(fname):
+                    os.unlink(fname)
+            for i in range(nb):
+                app.add_before_response(functools.partial(before, i=i))
+
+            def after(req, res):
+                trace.append(("A", 0))
+                return res
+            app.add_after_response(after)
+            if with_default:
+                def default(req):
+                    trace.append(("E",))
+                    return "default"
+                app.set_default(default)
+            ans = call(app, environ(method=meth, path="/f.txt"))
+            ctx.case(("endpoint-undermined", nb, with_default, meth), True,
+                     {"before_hooks": nb, "default": with_default})
+            ctx.count("endpoint-undermined")
+            befores = [t for t in trace if t[0] == "B"]
+            if befores != [("B", i) for i in range(nb)] or \
+                    trace.count(("A", 0)) != 1 or ans.raised is not None \
+                    or trace[-1] != ("A", 0):
+                ctx.violation("hook-count-when-file-vanishes", {
+                    "before_hooks": nb, "default_handler": with_default,
+                    "method": meth, "trace": trace, "status": ans.status})
+    finally:
+        shutil.rmtree(root, ignore_errors=True)
     return ctx.finish(
         "product of 0-2 before hooks x 0-2 after hooks (6/7 behaviours each) "
         "x 12 endpoint behaviours x request kinds {static hit, pattern hit, "
